@@ -154,6 +154,46 @@ fn c03_one(bits: u32, out: &mut Vec<String>) {
     }
 }
 
+/// C16 at 4 bytes: verbatim storage, exact reversal, the big-endian pair inverse to each other; the same bytes through
+/// the dynamic types' `try_from_le_bytes`
+fn c16_one(bits: u32, out: &mut Vec<String>) {
+    let le = bits.to_le_bytes();
+    let ok = catch_unwind(AssertUnwindSafe(|| {
+        let d = Bitstring32::from_le_bytes(le);
+        let mut rev = le;
+        rev.reverse();
+        let Some(Ok(y)) = <Bitstring as Dec>::try_le(&le) else { return false };
+        d.as_le_bytes() == &le && d.to_be_bytes() == rev && Bitstring32::from_be_bytes(rev).as_le_bytes() == &le
+            && Bitstring32::from_be_bytes(d.to_be_bytes()).as_le_bytes() == &le && y.as_le_bytes() == &le[..]
+    }))
+    .unwrap_or(false);
+    if !ok {
+        out.push(format!("sweep-anomaly/bytes/b32\tbytes b32 {}", hex(&le)));
+        out.push(format!("sweep-anomaly/try_le/dyn\ttry_le dyn {}", hex(&le)));
+    }
+}
+
+/// C08 at 32 bits: the six classifiers are a partition that follows the top byte, the sign is the top bit, and the
+/// first token of the printed text names the same class
+fn c08_one(bits: u32, out: &mut Vec<String>) {
+    let le = bits.to_le_bytes();
+    let ok = catch_unwind(AssertUnwindSafe(|| {
+        let d = Bitstring32::from_le_bytes(le);
+        let top = le[3];
+        let (fin, inf, nan) = (top & 0x78 != 0x78, top & 0x7c == 0x78, top & 0x7c == 0x7c);
+        let snan = nan && top & 0x02 != 0;
+        let t = d.to_string().to_ascii_lowercase();
+        let r = t.trim_start_matches('-');
+        let tok_ok = if inf { r.starts_with("inf") } else if snan { r.starts_with("snan") } else if nan { r.starts_with("nan") } else { r.starts_with(|c: char| c.is_ascii_digit()) };
+        d.is_finite() == fin && d.is_infinite() == inf && d.is_nan() == nan && d.is_signaling_nan() == snan && d.is_quiet_nan() == (nan && !snan)
+            && d.is_sign_negative() == (top & 0x80 != 0) && t.starts_with('-') == (top & 0x80 != 0) && tok_ok
+    }))
+    .unwrap_or(false);
+    if !ok {
+        out.push(format!("sweep-anomaly/classify/b32\tclassify b32 {}", hex(&le)));
+    }
+}
+
 fn c15_one(bits: u32, out: &mut Vec<String>) {
     let le = bits.to_le_bytes();
     fn view<D: Dec>(le: &[u8]) -> Option<(String, [bool; 6], Option<Option<i128>>, Option<Option<i128>>, Option<Option<u64>>, Option<Option<u64>>)> {
@@ -495,6 +535,12 @@ pub fn run(p: &Plan) {
             rnd("same 16 bytes in Bitstring128/Bitstring/BigBitstring agree", m, &c15_wide(4));
             rnd("same 12 bytes in Bitstring/BigBitstring agree", m, &c15_wide(3));
             rnd("same 20 bytes in Bitstring/BigBitstring agree", m, &c15_wide(5));
+        }
+        "C16" => {
+            go("Bitstring32 from_le/as_le/to_be/from_be: verbatim, reversed, inverse; Bitstring::try_from_le_bytes verbatim", if t { 1 } else { 3 }, &c16_one);
+        }
+        "C08" => {
+            go("Bitstring32 classifiers: partition following the top byte, sign bit, printed token", if t { 1 } else { 251 }, &c08_one);
         }
         "C11" => {
             go("Bitstring32: the ten integer targets are consistent with one exact value", if t { 1 } else { 101 }, &c11_one);
